@@ -182,7 +182,36 @@ fn narrowed_position(p: &Parsed, width: usize, e: &samlang_ast::source::expr::E<
       let left_fails = !round_trips(&p.heap, width, store, &E::Binary(only_left));
       let op = b.operator.kind_str();
       match (left_fails, right_fails) {
-        (false, true) => Some(format!("binary({op}).right<{}", astwalk::expr_shape(&b.e2))),
+        (false, true) => {
+          // a right operand with the same operator: is it a pure chain of that operator, or does
+          // another operator of the same precedence level sit on its left spine (which may change
+          // the value when the parentheses go: `a * ((b % c) * d)`)?
+          let mut spine: Vec<&'static str> = Vec::new();
+          if let E::Binary(r) = b.e2.as_ref() {
+            if r.operator == b.operator {
+              let level = |o: &samlang_ast::source::expr::BinaryOperator| match o.kind_str() {
+                "*" | "/" | "%" => 1,
+                "+" | "-" => 2,
+                "::" => 3,
+                "&&" => 5,
+                "||" => 6,
+                _ => 4,
+              };
+              let mut cur: &E<()> = r.e1.as_ref();
+              while let E::Binary(x) = cur {
+                if level(&x.operator) != level(&b.operator) {
+                  break;
+                }
+                if x.operator != b.operator && !spine.contains(&x.operator.kind_str()) {
+                  spine.push(x.operator.kind_str());
+                }
+                cur = x.e1.as_ref();
+              }
+            }
+          }
+          let tail = if spine.is_empty() { String::new() } else { format!("[left-spine-has:{}]", spine.join("")) };
+          Some(format!("binary({op}).right<{}{tail}", astwalk::expr_shape(&b.e2)))
+        }
         (true, false) => Some(format!("binary({op}).left<{}", astwalk::expr_shape(&b.e1))),
         _ => None,
       }
